@@ -904,7 +904,8 @@ def release_validation(ctx, RR, o):
 
 CLAIM = {
     'technique': 'static analysis: raise-after-mutation reachability, guard-implication check for fallible accesses, sign reasoning from path '
-                 'literals over linear normal forms, bookkeeping normal forms, edge dominance for the all-or-nothing test',
+                 'literals over linear normal forms, bookkeeping normal forms on supergraphs (helpers inlined, aliases rebased), edge dominance for the all-or-nothing test, '
+                 'per-entry truth table of the feasibility test (one loop iteration explored for every combination of zero / known / fits)',
     'level_text': 'Validation precedes mutation in every pool operation, the arithmetic is symmetric, capacity stores are sign-guarded and the '
                   'reservation test is all-or-nothing on every path; the usage = sum-of-holdings identity over histories is not decided.',
     'level_note': 'Amounts are real numbers; reservation internals are not mutated by callers.',
